@@ -715,7 +715,7 @@ fn g_text(rng: &mut Rng, max: u64) -> Vec<u8> {
     out
 }
 fn g_name(rng: &mut Rng) -> Vec<u64> {
-    let n = 1 + rng.below(4);
+    let n = 1 + if rng.chance(1, 6) { rng.below(24) } else { rng.below(4) };
     (0..n).map(|_| if rng.chance(1, 8) { rng.below(256) } else { 32 + rng.below(95) }).collect()
 }
 
@@ -816,7 +816,8 @@ fn g_report(rng: &mut Rng) -> Value {
             let err = if rng.chance(1, 2) {
                 Value::Null
             } else {
-                let t: Vec<u8> = g_text(rng, 12).into_iter().filter(|b| *b != 27).collect();
+                let max = if rng.chance(1, 6) { 80 } else { 12 };
+                let t: Vec<u8> = g_text(rng, max).into_iter().filter(|b| *b != 27).collect();
                 if t == b"OK" { json!([69]) } else { json!(t) }
             };
             json!({"t": "kimg", "id": g_num(rng), "p": if rng.chance(1, 2) { Value::Null } else { json!(g_num(rng)) }, "err": err})
@@ -838,7 +839,8 @@ fn g_report(rng: &mut Rng) -> Value {
             json!({"t": "color", "name": name, "c": c, "form": form, "upper": rng.chance(1, 2), "end": rng.below(2)})
         }
         13 => {
-            let mut names: Vec<Vec<u64>> = (0..rng.below(4)).map(|_| g_name(rng)).collect();
+            let count = if rng.chance(1, 6) { rng.below(12) } else { rng.below(4) };
+            let mut names: Vec<Vec<u64>> = (0..count).map(|_| g_name(rng)).collect();
             names.sort();
             names.dedup();
             if rng.chance(1, 2) {
@@ -852,7 +854,8 @@ fn g_report(rng: &mut Rng) -> Value {
             }
         }
         _ => {
-            let t: Vec<u8> = g_text(rng, 10).into_iter().filter(|b| *b != 27).collect();
+            let max = if rng.chance(1, 6) { 200 } else { 10 };
+            let t: Vec<u8> = g_text(rng, max).into_iter().filter(|b| *b != 27).collect();
             json!({"t": "paste", "text": t})
         }
     }
